@@ -1072,7 +1072,11 @@ def _b(V, L, cid):
             C('batch acc,mag', lambda: {'acc': V.ACC, 'mag': V.MAG}, lambda a: Aq(a['acc'], a['mag']), tags=('batch',)),
             C('batch acc,gyr', lambda: {'acc': V.ACC, 'gyr': V.GYR}, lambda a: Aq(a['acc'], gyr=a['gyr']), tags=('batch',)),
             C('batch acc,mag,gyr', lambda: _gam(V), lambda a: Aq(a['acc'], a['mag'], a['gyr']), tags=('batch',)),
-            C('batch acc,mag,gyr q0= adaptive', lambda: dict(_gam(V), q0=V.q), lambda a: Aq(a['acc'], a['mag'], a['gyr'], q0=a['q0'], adaptive=True), tags=('batch', 'optional-array'))]
+            C('batch acc,mag,gyr q0= adaptive', lambda: dict(_gam(V), q0=V.q), lambda a: Aq(a['acc'], a['mag'], a['gyr'], q0=a['q0'], adaptive=True), tags=('batch', 'optional-array')),
+            # the other local frame (an option the class validates): same ownership and repeatability
+            C('batch acc,mag,gyr frame=ENU', lambda: _gam(V), lambda a: Aq(a['acc'], a['mag'], a['gyr'], frame='ENU'), tags=('batch',)),
+            C('batch acc,gyr frame=ENU', lambda: {'acc': V.ACC, 'gyr': V.GYR}, lambda a: Aq(a['acc'], gyr=a['gyr'], frame='ENU'), tags=('batch',)),
+            C('single acc,mag frame=ENU', lambda: {'acc': V.acc, 'mag': V.mag}, lambda a: Aq(a['acc'], a['mag'], frame='ENU'), tags=('single',))]
 
 
 @builder('AQUA.estimate', 'AQUA.init_q')
@@ -1251,7 +1255,8 @@ def _b(V, L, cid):
     return [C('batch gyr,acc,mag', lambda: _gam(V), lambda a: Ro(a['gyr'], a['acc'], a['mag']), tags=('batch',), rng='np'),
             C('batch weights= magnetic_ref= q0=', lambda: dict(_gam(V), weights=V.w2, magnetic_ref=V.mref, q0=V.q),
               lambda a: Ro(a['gyr'], a['acc'], a['mag'], weights=a['weights'], magnetic_ref=a['magnetic_ref'], q0=a['q0']), tags=('batch', 'optional-array'), rng='np'),
-            C('no data weights= magnetic_ref=', lambda: {'weights': V.w2, 'magnetic_ref': V.mref}, lambda a: Ro(weights=a['weights'], magnetic_ref=a['magnetic_ref']), tags=('optional-array',))]
+            C('no data weights= magnetic_ref=', lambda: {'weights': V.w2, 'magnetic_ref': V.mref}, lambda a: Ro(weights=a['weights'], magnetic_ref=a['magnetic_ref']), tags=('optional-array',)),
+            C('batch gyr,acc,mag frame=ENU q0=', lambda: dict(_gam(V), q0=V.q), lambda a: Ro(a['gyr'], a['acc'], a['mag'], frame='ENU', q0=a['q0']), tags=('batch', 'optional-array'))]
 
 
 @builder('ROLEQ.attitude_propagation')
